@@ -171,7 +171,10 @@ def run(ctx):
                        "missing-keys fault)"]
     import session_corr
     import export_props_quic_thms, export_props_thms, export_inputs2_thms, file_corr     # whole-program form (Props/ExportProps) about TLX.Export.framesFrom, tied file to file
-    ctx.prove(["TLX.Props.C08", "TLX.Props.C05", "TLX.Props.C08Session", "TLX.Props.C02Out", "TLX.Props.C01Pipeline"] + export_props_thms.MODULES + export_props_quic_thms.MODULES + export_inputs2_thms.MODULES)
+    import translate                 # decision-logic functions re-translated from the source and proved equal to the model
+    _tm, _tt = translate.wire(ctx, "C08")
+    ctx.prove(["TLX.Props.C08", "TLX.Props.C05", "TLX.Props.C08Session", "TLX.Props.C02Out", "TLX.Props.C01Pipeline"] + export_props_thms.MODULES + export_props_quic_thms.MODULES + export_inputs2_thms.MODULES + _tm)
+    ctx.require_theorems(_tt)
     ctx.require_theorems(THEOREMS + session_corr.THEOREMS_C08 + export_props_thms.THEOREMS_C08 + export_props_quic_thms.THEOREMS_C08 + export_inputs2_thms.THEOREMS_NAT + export_inputs2_thms.THEOREMS_C08 + ["TLX.Props.C02Out." + t for t in ("build_take_prefix_quic", "build_take_dropLast_prefix", "build_take_prefix_needs_distinct")] + ["TLX.Props.C01Pipeline.connOut_take_prefix"])
     import c06_model
     c06_model.run_model(ctx)          # ties TLX.TcpOut to the real OutputBuilder
